@@ -280,9 +280,14 @@ fn apply_simple(sh: &Arc<Mutex<Shared>>, handle: &FairQueueHandle<SStream, usize
     }
 }
 
+/// The receiver's waker. Every poll of the receiver gets a NEW one (as when the socket is handed to
+/// another task, or driven through a combinator with per-future wakers): by the `Future` contract only
+/// the waker of the most recent poll has to be woken, so a wake through an older one does not count.
 struct RecvWaker {
     sh: Arc<Mutex<Shared>>,
     count: AtomicUsize,
+    generation: usize,
+    current: Arc<AtomicUsize>,
 }
 
 impl Wake for RecvWaker {
@@ -291,6 +296,9 @@ impl Wake for RecvWaker {
     }
     fn wake_by_ref(self: &Arc<Self>) {
         self.count.fetch_add(1, Ordering::SeqCst);
+        if self.current.load(Ordering::SeqCst) != self.generation {
+            return;
+        }
         // may be called while the shared lock is NOT held (all wakes happen outside it)
         if let Ok(mut g) = self.sh.try_lock() {
             g.model.woken = true;
@@ -334,7 +342,7 @@ pub struct Sim {
     probe: FairQueueProbe<SStream, usize>,
     handle: FairQueueHandle<SStream, usize>,
     sh: Arc<Mutex<Shared>>,
-    rw: Arc<RecvWaker>,
+    rw_generation: Arc<AtomicUsize>,
 }
 
 impl Drop for Sim {
@@ -375,17 +383,13 @@ impl Sim {
             exhausted: false,
             polls_while_exhausted: 0,
         }));
-        let rw = Arc::new(RecvWaker {
-            sh: sh.clone(),
-            count: AtomicUsize::new(0),
-        });
         HOOK_SHARED.with(|h| *h.borrow_mut() = Some((sh.clone(), handle.clone())));
         Sim {
             cfg: cfg.clone(),
             probe,
             handle,
             sh,
-            rw,
+            rw_generation: Arc::new(AtomicUsize::new(0)),
         }
     }
 
@@ -435,7 +439,8 @@ impl Sim {
             g.model.woken = false;
         }
         PENDING_WOKEN.with(|p| p.set(false));
-        let waker = Waker::from(self.rw.clone());
+        let generation = self.rw_generation.fetch_add(1, Ordering::SeqCst) + 1;
+        let waker = Waker::from(Arc::new(RecvWaker { sh: self.sh.clone(), count: AtomicUsize::new(0), generation, current: self.rw_generation.clone() }));
         let mut cx = Context::from_waker(&waker);
         let r = self.probe.poll_next(&mut cx);
         self.sync_woken();
